@@ -166,6 +166,19 @@ CLAIMED = {
         note="The multi-thread prologue (par.rs) cannot be compiled by Kani (thread::spawn ICE): its block-size check is not under contract.",
         technique=KANI + " + " + VERUS,
         design_ref="6 C17"),
+    "C18": dict(
+        category="proof",
+        text=("For each public constructor (Residual, QuantizedParameters, Constant, Verbatim, FixedLpc, Lpc, Frame, unknown metadata; "
+              "StreamInfo / FrameHeader under C17): the call RETURNS for every argument combination (no panic, overflow, failed assertion "
+              "or out-of-bounds index inside the constructor or verify()); Ok implies verify() Ok; verify() Ok <=> an RFC 9639 "
+              "well-formedness predicate written independently of the code; a well-formed component writes exactly count_bits() bits "
+              "with the header fields in place; Frame::new Ok <=> channel count, block size and per-channel width agree with the header."),
+        note=("Bounded: slice lengths and loop-steering scalars (partition order, block size, warm-up, LPC order) are enumerated shapes "
+              "that contain every inconsistent combination the property names; all element values and remaining scalars are symbolic. "
+              "'Parses back to an identical component' is NOT decided by running the nom parser (intractable for Kani, see C15/C16): it is "
+              "carried by the layout obligations (write == RFC layout, count_bits exact) plus the C15 leaf inverses."),
+        technique=KANI,
+        design_ref="6 C18"),
 }
 
 NOT_APPLICABLE = {
